@@ -1,6 +1,7 @@
 import SkgVerif.Model.CrossVal
 import Mathlib.Tactic
 import Mathlib.Data.List.Basic
+import SkgVerif.Gen.Source
 /-!
 # C17 — jackknife cross-validation scores are those of true leave-one-out kriging
 -/
@@ -88,5 +89,18 @@ theorem C17_jackknife (maxDist : Rat) (minP maxP : ℕ) (D Gm : List (List Rat))
 theorem C17_mae_defect : maeScore [some 2, none, some 4] = some 3 ∧
     maeScoreDefect [some 2, none, some 4] = some 2 := by
   refine ⟨by decide +kernel, by decide +kernel⟩
+
+/-- `_interpolate` / `jacknife` as they are in the source now: exactly row `idx` is deleted from
+coordinates and values, kriging uses the variogram and the remaining data, the deviation is
+prediction − held-out observation; indices are drawn without replacement from a generator seeded
+with `seed`; the scores are `nanmean`-based -/
+theorem C17_source : Gen.jackknifeSource =
+    [("hold_out_coordinates", "c = np.delete(variogram.coordinates, idx, axis=0)"),
+     ("hold_out_values", "v = np.delete(variogram.values, idx, axis=0)"),
+     ("kriging", "ok = OrdinaryKriging(variogram, coordinates=c, values=v)"),
+     ("deviation", "return (Z - variogram.values[idx])[0]"),
+     ("indices", "indices = rng.choice(len(variogram.coordinates), replace=False, size=size)"),
+     ("generator", "rng = np.random.default_rng(seed=seed)"),
+     ("scores", "return np.sqrt(np.nanmean(np.power(deviations, 2))) | return np.nanmean(np.power(deviations, 2)) | return np.nanmean(np.abs(deviations))")] := by rfl
 
 end Skg
